@@ -110,6 +110,10 @@ def spec(tier, seed):
     casts = b.file(sk.CASTS_FILE, "rusty_basic", "interpreter::variant_casts")
     sk.arg_casts(b, casts, "vk_c08")
 
+    # (probed: Context::push_error_handler_context after 0..3 begin_collecting_arguments, then pop - with RandomState::new stubbed
+    # to fixed keys because HashMap::new() issues a getrandom system call Kani does not model: no verdict in 600 s; dropping a
+    # MemoryBlock drags in the Variant drop glue.  The activation stack stays outside the claim.)
+
     main = b.file("rusty_basic/src/interpreter/main.rs", "rusty_basic", "interpreter::main")
     for n in (2, 3):
         b.add(main, "vk_c08_resume_address_total_n%d" % n, """
